@@ -357,8 +357,10 @@ type machine struct {
 	printedOnce  bool
 	illFormed    bool
 	placeholders []placeholder
-	literal      bool
-	richConsts   bool
+	// inFailingPrint: a print that is expected to panic is in progress.
+	inFailingPrint bool
+	literal        bool
+	richConsts     bool
 	// viaBlock is set while an "inst" step that asked for it builds its
 	// instruction: the Block.New* method appends by itself (viaUsed).
 	viaBlock *ir.Block
@@ -2140,6 +2142,11 @@ type placeholder struct {
 func (mc *machine) completePlaceholder(ph placeholder) {
 	if len(ph.phi.Incs) == 0 && len(ph.f.Blocks) > 0 {
 		ph.phi.Incs = []*ir.Incoming{ir.NewIncoming(constant.NewInt(tI32, 7), ph.f.Blocks[0])}
+		// (the type is written down with the incoming values: a phi literal whose
+		// Typ is still unset cannot be printed by a block printer before something
+		// has asked for its type — the lazily cached Typ of DESIGN.md 5.5, which
+		// the search stays off)
+		ph.phi.Typ = tI32
 	}
 }
 
@@ -2207,6 +2214,11 @@ func (mc *machine) mdClash() bool {
 // IR (a block without terminator, two metadata definitions with one ID): the
 // panic is the caller's to recover, and nothing of the attempt may stay behind.
 func (mc *machine) failingPrint(what string, f func()) {
+	if nativeGoroutines {
+		return
+	}
+	mc.inFailingPrint = true
+	defer func() { mc.inFailingPrint = false }()
 	if pan, _ := protect(f); pan {
 		mc.probes["print attempted while the IR cannot be printed (panic recovered): "+what]++
 	}
